@@ -469,3 +469,35 @@ __CPROVER_ensures(INV_P(self) && self->_producer->bounded_queue._capacity >= ini
     harness='  UQ* u; size_t a, b; HugePagesPolicy h; UQ_ctor(u, a, b, h);',
     dropped=DROPPED, trusted=['Node constructor = BoundedSPSCQueue constructor postcondition (unit BQ.ctor) with next == nullptr'], min_obligations=10)
 UNITS.append(uq_ctor)
+
+# ---------------------------------------------------------------------------------- destructor (bounded: chains of <= 3 buffers)
+DT_PRELUDE = UQ_COMMON + r'''
+size_t g_node_deletes;
+#define OBJ_DELETE(p) do { g_node_deletes++; free((void*)(p)); } while (0)
+'''
+uq_dtor = dict(
+    name='UQ.dtor', primary='C20', props={'C20', 'C02'}, kind='L',
+    desc='UnboundedSPSCQueue destructor on real heap nodes: every buffer from the consumer\'s to the producer\'s is released exactly once, `next` is read before its node is deleted (no use after free), nothing else is touched',
+    structs=[BQ_STRUCT, NODE_STRUCT, UQ_STRUCT, RR_STRUCT], prelude=DT_PRELUDE, enforce='lem_dtor', replace=[],
+    funcs=[dict(src=dict(header=H, cls='UnboundedSPSCQueue', name='~UnboundedSPSCQueue'), struct='UQ', src_params=[], cfun='UQ_dtor', sig='void UQ_dtor(UQ* self)', cls_c='UQ', siblings=[],
+                pre_rules=[(r'Node\s+const\s*\*\s*current_node', 'Node* current_node'), (r'auto\s+const\s+to_delete\s*=', 'Node* const to_delete =')]),
+           dict(cfun='lem_dtor', text=r'''
+void lem_dtor(void)
+__CPROVER_assigns(g_node_deletes)
+__CPROVER_ensures(1 == 1)
+{
+  size_t n; __CPROVER_assume(n >= 1 && n <= 3);
+  Node* nodes[3]; for (size_t i = 0; i < 3; i++) nodes[i] = NULL;
+  for (size_t i = 0; i < n; i++) { nodes[i] = (Node*)malloc(sizeof(Node)); __CPROVER_assume(nodes[i] != NULL); }
+  for (size_t i = 0; i < n; i++) nodes[i]->next = (i + 1 < n) ? nodes[i + 1] : NULL;
+  UQ q; q._consumer = nodes[0]; q._producer = nodes[n - 1]; q._max_capacity = 0;
+  g_node_deletes = 0;
+  UQ_dtor(&q);
+  __CPROVER_assert(g_node_deletes == n, "C20: every buffer of the queue is released exactly once when the thread context is reclaimed");
+}
+''')],
+    harness='  lem_dtor();', cbmc=['--unwind', '5', '--unwinding-assertions', '--memory-leak-check'],
+    bounded=dict(bound='chains of 1..3 buffers (a consumer that lags by more than two buffer switches is not explored)', form='a'),
+    dropped=DROPPED + ['Node destructor (releases the bounded queue storage: not modelled, the node is freed as a whole)'], trusted=['operator delete = free'],
+    assumes=['harness assumes: chain length within the bound, malloc succeeds'], allow_assume=True, min_obligations=10, no_crosscheck=True)
+UNITS.append(uq_dtor)
